@@ -32,7 +32,7 @@ def badWidth (c : W.ColDef) : Option Nat :=
   else none
 
 /-- a cell of a column the value decoder rejects, written as exactly the number of bytes the length rule expects
-    (`.raw b` with `b.length = w`, `.enum w n`, … — any value whose written form has that length) -/
+    (`.raw b t` with `b.length = w`, `.enum w n`, … — any value whose written form has that length) -/
 def CellBad (c : W.ColDef) (v : W.CellVal) : Prop := ∃ w, badWidth c = some w ∧ (W.cell c.typ c.md v).length = w
 
 /-- a well-formed cell, or a cell of a rejected column type with the right length -/
